@@ -34,6 +34,9 @@ type Layout struct {
 	Form        string `json:"form"` // "timeline" ($Time$ + SegmentTimeline) or "number" (duration + $Number$)
 	StartNumber int    `json:"snr"`  // VoD startNumber for the number form (0 or 1)
 	Tag         string `json:"tag,omitempty"`
+	// V2Extra != 0 adds a second video representation "V600" whose last segment has V2Extra more (or fewer) frames:
+	// the representations then disagree in duration and livesim2 must leave the asset out.
+	V2Extra int `json:"v2extra,omitempty"`
 }
 
 type Clock struct{ Timescale, FrameDur int }
@@ -427,6 +430,34 @@ func (l Layout) Materialize(root string) (string, error) {
 		fmt.Fprintf(&vTimeline, "<S t=\"%d\" d=\"%d\"/>", t, nf*l.VFrameDur)
 		t += nf * l.VFrameDur
 	}
+	if l.V2Extra != 0 {
+		if err := os.MkdirAll(filepath.Join(tmp, "V600"), 0o755); err != nil {
+			return "", err
+		}
+		if err := os.WriteFile(filepath.Join(tmp, "V600/init.mp4"), vinit, 0o644); err != nil {
+			return "", err
+		}
+		fi, t2 := 0, 0
+		for i, nf := range l.VSegFrames {
+			if i == len(l.VSegFrames)-1 {
+				nf += l.V2Extra
+			}
+			var fss []mp4.FullSample
+			for k := 0; k < nf; k++ {
+				src := vp.samples[fi%len(vp.samples)]
+				fs := mp4.FullSample{Sample: mp4.Sample{Flags: src.Flags, Dur: uint32(l.VFrameDur), Size: src.Size}, DecodeTime: uint64(t2 + k*l.VFrameDur), Data: src.Data}
+				if k == 0 {
+					fs.Flags = mp4.SyncSampleFlags
+				}
+				fss = append(fss, fs)
+				fi++
+			}
+			if err := writeSeg(filepath.Join(tmp, "V600", segName(i, t2)), vp.trackID, uint32(i+1), [][]mp4.FullSample{fss}); err != nil {
+				return "", err
+			}
+			t2 += nf * l.VFrameDur
+		}
+	}
 	// audio
 	if l.Audio != "" {
 		ap := pools[l.Audio]
@@ -486,7 +517,7 @@ func (l Layout) Materialize(root string) (string, error) {
 	if err := os.WriteFile(filepath.Join(tmp, "Manifest.mpd"), []byte(l.mpd(vTimeline.String(), aTimeline.String(), tTimeline.String())), 0o644); err != nil {
 		return "", err
 	}
-	for _, d := range []string{"A48", "T1", "thumbs"} {
+	for _, d := range []string{"A48", "T1", "thumbs", "V600"} {
 		ents, _ := os.ReadDir(filepath.Join(tmp, d))
 		if len(ents) == 0 {
 			_ = os.Remove(filepath.Join(tmp, d))
@@ -527,9 +558,9 @@ func (l Layout) mpd(vTL, aTL, tTL string) string {
 	}
 	fmt.Fprintf(&b, `    <AdaptationSet contentType="video" mimeType="video/mp4" segmentAlignment="true" startWithSAP="1">
       %s
-      <Representation id="V300" codecs="avc1.64001e" bandwidth="300000" width="640" height="360"/>
+      <Representation id="V300" codecs="avc1.64001e" bandwidth="300000" width="640" height="360"/>%s
     </AdaptationSet>
-`, tmpl(l.VTimescale, l.LoopTicks()/n, vTL))
+`, tmpl(l.VTimescale, l.LoopTicks()/n, vTL), map[bool]string{true: "\n      <Representation id=\"V600\" codecs=\"avc1.64001e\" bandwidth=\"600000\" width=\"640\" height=\"360\"/>", false: ""}[l.V2Extra != 0])
 	if l.Text {
 		fmt.Fprintf(&b, `    <AdaptationSet contentType="text" mimeType="application/mp4" lang="en" segmentAlignment="true">
       <Role schemeIdUri="urn:mpeg:dash:role:2011" value="subtitle"/>
